@@ -64,24 +64,42 @@ Lemma ec_groups_correct :
       ec_groups = rfc5903_groups.
 Proof. reflexivity. Qed.
 
+Lemma xy_encoding w x y : 0 <= w -> 0 <= x < 256 ^ w -> 0 <= y < 256 ^ w ->
+  exists b, ecdh_public_key w x y = Ok b /\ length b = Z.to_nat (2 * w) /\
+            from_bytes_big (firstn (Z.to_nat w) b) = x /\ from_bytes_big (skipn (Z.to_nat w) b) = y.
+Proof.
+  intros Hw Hx Hy. unfold ecdh_public_key.
+  rewrite (to_bytes_big_ok x w), (to_bytes_big_ok y w) by assumption. cbn [bind].
+  eexists; split; [reflexivity|].
+  pose proof (be_encode_length (Z.to_nat w) (Z.to_N x)) as Lx.
+  pose proof (be_encode_length (Z.to_nat w) (Z.to_N y)) as Ly.
+  split; [rewrite app_length, Lx, Ly; lia|].
+  split.
+  - rewrite <- Lx at 1. rewrite firstn_app_exact. apply from_to_bytes; assumption.
+  - rewrite <- Lx at 1. rewrite skipn_app_exact. apply from_to_bytes; assumption.
+Qed.
+
+Lemma ec_group_not_modp g : In g (map fst rfc5903_groups) -> lookup g modp_group_dict = None.
+Proof.
+  unfold rfc5903_groups. cbn [map fst In].
+  intros H. repeat (destruct H as [H|H]; [subst g; vm_compute; reflexivity|]). contradiction.
+Qed.
+
 Lemma ecdh_public_value g name bits w x y : In (g, (name, (bits, w))) rfc5903_groups ->
   0 <= x < 2 ^ bits -> 0 <= y < 2 ^ bits ->
   exists b, dh_public_key g x y = Ok b /\ length b = Z.to_nat (2 * w) /\
             from_bytes_big (firstn (Z.to_nat w) b) = x /\ from_bytes_big (skipn (Z.to_nat w) b) = y.
 Proof.
-  intros Hin Hx Hy. unfold rfc5903_groups in Hin. cbn [In] in Hin.
+  intros Hin Hx Hy. unfold dh_public_key.
+  rewrite ec_group_not_modp by (apply (in_map fst) in Hin; exact Hin).
+  unfold rfc5903_groups in Hin. cbn [In] in Hin.
   repeat (destruct Hin as [Hin|Hin]; [injection Hin as; subst g name bits w|]); try contradiction;
-    unfold dh_public_key; cbn [lookup modp_group_dict Z.eqb Pos.eqb ec_groups dict_get bind fst snd];
-    unfold ecdh_public_key;
-    match goal with |- context [to_bytes_big x ?w] =>
-      assert (Hpow : 2 ^ _ <= 256 ^ w) by (vm_compute; discriminate);
-      rewrite (to_bytes_big_ok x w), (to_bytes_big_ok y w) by (try lia; vm_compute; discriminate);
-      cbn [bind]; eexists; split; [reflexivity|];
-      pose proof (be_encode_length (Z.to_nat w) (Z.to_N x)) as Lx;
-      pose proof (be_encode_length (Z.to_nat w) (Z.to_N y)) as Ly;
-      split; [rewrite app_length, Lx, Ly; reflexivity|];
-      split;
-      [ rewrite <- Lx at 1; rewrite firstn_app_exact; apply from_to_bytes; [vm_compute; discriminate|lia]
-      | rewrite <- Lx at 1; rewrite skipn_app_exact; apply from_to_bytes; [vm_compute; discriminate|lia] ]
-    end.
+    lazymatch goal with |- context [dict_get ?g ec_groups] =>
+      let r := eval vm_compute in (dict_get g ec_groups) in change (dict_get g ec_groups) with r end;
+    cbn [bind];
+    lazymatch goal with |- context [ecdh_public_key ?kl x y] =>
+      let v := eval vm_compute in kl in change kl with v end;
+    (apply xy_encoding; [discriminate | |]);
+    match goal with |- _ <= ?z < 256 ^ ?w =>
+      assert (Hpow : 2 ^ _ <= 256 ^ w) by (vm_compute; discriminate); lia end.
 Qed.
